@@ -29,7 +29,7 @@ import tlaval  # noqa: E402
 
 LEVEL = 'model_checking'
 
-BAD_SC = ['empty', 'crash', 'signal', 'garbage', 'sigout', 'empty0']
+BAD_SC = ['empty', 'crash', 'signal', 'garbage', 'sigout', 'empty0', 'trailer', 'twoarrays']
 BAD_PY = ['empty', 'signal', 'sigout']
 
 
@@ -216,6 +216,16 @@ def run(ck, tier):
     groups = {'0': [], '0,1': [], '': []}
     for k, sc in enumerate(scs):
         groups[['0', '0,1', ''][k % 3]].append(sc)
+    # one scenario whose first tool invocation takes 6.5 s: a slow tool is waited for, never given up on
+    seq, out = next(c_ for c_ in configs if all(v == 'ok' or v == 'issues' for v in c_[1].values()))
+    sid += 1
+    sc, meta = scenario_from_cfg(sid, seq, out, rng)
+    first_tok = sorted(sc['plan'])[0]
+    sc['plan'][first_tok]['delay_ms'] = 6500
+    sc['hook_delay_us'] = 0
+    scs.append(sc)
+    metas[sid] = (sc, meta)
+    groups[''].insert(0, sc)
     all_res = []
     vplib.build_harness()
     from concurrent.futures import ThreadPoolExecutor
@@ -421,6 +431,22 @@ def tool_input_part(ck, sd, rs, rz, tier):
                                                                                 'steps': steps}]}],
                     'plan': plan, 'nostart': '', 'hook_delay_us': 0, 'single': True})
     ck.cov['shell_vectors'] = len(shell_vecs)
+    # identical scripts: every step is passed to the tool, however often the same text (after sanitising) occurs
+    sid += 1
+    dsteps, dplan = [], {}
+    for tok, bodies in (('DUPA', ['echo same  # tok=DUPA'] * 3),
+                        ('DUPB', ['echo ${{ github.sha }} # tok=DUPB', 'echo ${{ github.ref }} # tok=DUPB']),
+                        ('DUPC', ['x = 1  # tok=DUPC'] * 2)):
+        for b_ in bodies:
+            dsteps.append({'tok': tok, 'shell': 'python' if tok == 'DUPC' else '', 'script': b_})
+        dplan[tok] = {'outcome': 'ok', 'delay_ms': 0, 'n': 0}
+        first = bodies[0]
+        san = re.sub(r'\$\{\{.*?\}\}', lambda m_: '_' * len(m_.group(0)), first)
+        expect[tok] = {'tool': 'py' if tok == 'DUPC' else 'sc:bash', 'count': len(bodies),
+                       'stdin': (san + '\n') if tok == 'DUPC' else 'set -eo pipefail\n' + san + '\n\n',
+                       'vec': {'kind': 'shell', 'step': '', 'job': '', 'wf': '', 'win': False, 'tool': 'dup', 'identical_scripts': len(bodies)}}
+    scs.append({'id': sid, 'files': [{'default_shell': '', 'jobs': [{'default_shell': '', 'runs_on': '', 'steps': dsteps}]}],
+                'plan': dplan, 'nostart': '', 'hook_delay_us': 0, 'single': True})
     # sanitize: bash and python steps, 24 scripts per file
     batch = []
     for v in san_vecs:
@@ -476,9 +502,9 @@ def tool_input_part(ck, sd, rs, rz, tier):
         else:
             nsan += 1
         want_kind = 'py' if ex['tool'] == 'py' else 'sc'
-        if len(got) != 1 or got[0]['kind'] != want_kind:
-            ck.violation('%s:invocations' % kind, 'script %r expected exactly one %s invocation, observed %s (vector %s)'
-                         % (tok, ex['tool'], [g['kind'] for g in got], json.dumps(v)), {'kind': kind, 'vec': v})
+        if len(got) != ex.get('count', 1) or any(g_['kind'] != want_kind for g_ in got):
+            ck.violation('%s:invocations' % kind, 'script %r expected exactly %d %s invocation(s), observed %s (vector %s)'
+                         % (tok, ex.get('count', 1), ex['tool'], [g['kind'] for g in got], json.dumps(v)), {'kind': kind, 'vec': v})
             continue
         g = got[0]
         if want_kind == 'sc':
@@ -487,7 +513,8 @@ def tool_input_part(ck, sd, rs, rz, tier):
             if '--shell' not in argv or argv[argv.index('--shell') + 1] != sh:
                 ck.violation('shell:dialect', 'shellcheck started with %s, effective shell is %s (vector %s)' % (argv, sh, json.dumps(v)),
                              {'kind': kind, 'vec': v})
-        if g['stdin'] != ex['stdin']:
+        if any(g_['stdin'] != ex['stdin'] for g_ in got):
+            g = next(g_ for g_ in got if g_['stdin'] != ex['stdin'])
             ck.violation('%s:stdin' % kind, 'tool input differs: expected %r, tool received %r (vector %s)'
                          % (ex['stdin'], g['stdin'], json.dumps(v)), {'kind': kind, 'vec': v, 'expected': ex['stdin'], 'observed': g['stdin']})
     ck.cov['evaluations'] += nshell + nsan
